@@ -787,20 +787,40 @@ private:
         return iterator(*this, old_size, element_address);
     }
 
+    // Zero-fills the elements [start_idx, end_idx) that a growth call leaves unconstructed after an exception.
+    // Concurrent growth calls may have enabled later segments while a segment of this range is still disabled, so
+    // the state of every segment is checked: a disabled segment that only this call could enable is marked as
+    // failed (which also releases the threads waiting for it), a segment that another call enables is awaited,
+    // and only elements of allocated segments are written.
+    void zero_unconstructed_range( size_type start_idx, size_type end_idx ) {
+        for (size_type i = start_idx; i < end_idx; ++i) {
+            segment_table_type current_table = this->get_table();
+            segment_index_type seg_index = this->segment_index_of(i);
+            segment_type segment = current_table[seg_index].load(std::memory_order_acquire);
+            if (segment == nullptr) {
+                if (seg_index >= this->my_first_block.load(std::memory_order_relaxed) && i == this->segment_base(seg_index)) {
+                    current_table[seg_index].compare_exchange_strong(segment, this->segment_allocation_failure_tag);
+                } else {
+                    spin_wait_while_eq(current_table[seg_index], segment_type(nullptr));
+                }
+                segment = current_table[seg_index].load(std::memory_order_acquire);
+            }
+            if (segment > this->segment_allocation_failure_tag) {
+                zero_unconstructed_elements(&segment[i], /*count =*/1);
+            }
+        }
+    }
+
     template <typename... Args>
     void internal_loop_construct( segment_table_type table, size_type start_idx, size_type end_idx, const Args&... args ) {
         static_assert(sizeof...(Args) < 2, "Too many parameters");
+        static_cast<void>(table); // the active table is re-read by zero_unconstructed_range
         for (size_type idx = start_idx; idx < end_idx; ++idx) {
             auto element_address = &base_type::template internal_subscript</*allow_out_of_range_access=*/true>(idx);
             // try_call API is not convenient here due to broken
             // variadic capture on GCC 4.8.5
             auto value_guard = make_raii_guard( [&] {
-                segment_index_type last_allocated_segment = this->find_last_allocated_segment(table);
-                size_type segment_size = this->segment_size(last_allocated_segment);
-                end_idx = end_idx < segment_size ? end_idx : segment_size;
-                for (size_type i = idx; i < end_idx; ++i) {
-                    zero_unconstructed_elements(&this->internal_subscript(i), /*count =*/1);
-                }
+                zero_unconstructed_range(idx, end_idx);
             });
             segment_table_allocator_traits::construct(base_type::get_allocator(), element_address, args...);
             value_guard.dismiss();
@@ -809,17 +829,13 @@ private:
 
     template <typename ForwardIterator>
     void internal_loop_construct( segment_table_type table, size_type start_idx, size_type end_idx, ForwardIterator first, ForwardIterator ) {
+        static_cast<void>(table); // the active table is re-read by zero_unconstructed_range
         for (size_type idx = start_idx; idx < end_idx; ++idx) {
             auto element_address = &base_type::template internal_subscript</*allow_out_of_range_access=*/true>(idx);
             try_call( [&] {
                 segment_table_allocator_traits::construct(base_type::get_allocator(), element_address, *first++);
             } ).on_exception( [&] {
-                segment_index_type last_allocated_segment = this->find_last_allocated_segment(table);
-                size_type segment_size = this->segment_size(last_allocated_segment);
-                end_idx = end_idx < segment_size ? end_idx : segment_size;
-                for (size_type i = idx; i < end_idx; ++i) {
-                    zero_unconstructed_elements(&this->internal_subscript(i), /*count =*/1);
-                }
+                zero_unconstructed_range(idx, end_idx);
             });
         }
     }
